@@ -50,6 +50,9 @@ For EACH refactoring:
   2. behaviour is IDENTICAL for every input, every random seed and every option (same results, same mutations of the same objects, same order of random draws, same output text); be careful with evaluation order, short-circuiting, aliasing and the number/order of calls to the random generator;
   3. write a short equivalence argument, and where cheap a small script that compares old and new behaviour on a few inputs.
 
+Earlier clean-ups by other people already did the following in this area - do something DIFFERENT: other blocks of the same central functions or other central functions of the property, and other techniques or combinations of techniques (e.g. extract a helper AND restructure its control flow, move a block into a new module-level function, merge two helpers, change a helper's parameter list, replace an index loop by zip/enumerate, turn an if-chain into a dict lookup or vice versa where equivalent):
+{earlier}
+
 Deliverables, for i in 1..4:
   {out}/refactor{{i}}/patch.diff   - `git -C {wt} diff` for that refactoring alone
   {out}/refactor{{i}}/notes.md     - technique used, functions touched, equivalence argument (5-10 lines)
@@ -66,8 +69,15 @@ for pid in claimed:
     if not os.path.isdir(wt):
         subprocess.check_call(["git", "-C", "/repo", "worktree", "add", "-q", "--detach", wt])
     os.makedirs(out, exist_ok=True)
+    import glob
+    earlier = []
+    for np_ in sorted(glob.glob("/verif/refactors/%s-r*/notes.md" % pid)):
+        lines = [l.strip() for l in open(np_).read().splitlines() if l.strip()]
+        title = lines[0].lstrip("# ").strip() if lines else ""
+        fn = next((l for l in lines[1:6] if l.lower().startswith(("function", "functions"))), "")
+        earlier.append("  - %s%s" % (title[:120], (" (" + fn[:140] + ")") if fn else ""))
     mech = "; ".join("%s (%s)" % (m["name"], m["where"]) for m in d["anchors"].get("mechanism", []))
     open("%s/prompt_c%s.txt" % (base, n), "w").write(T.format(
         wt=wt, out=out, pid=pid, title=d["title"], statement=d["statement"],
-        files=", ".join(d["anchors"]["files"]), mech=mech))
+        files=", ".join(d["anchors"]["files"]), mech=mech, earlier="\n".join(earlier) or "  (none)"))
     print(pid, wt)
